@@ -248,7 +248,11 @@ func (v4proto) Inspect(wire []byte) pktInfo {
 	// under test interprets hlen.
 	if len(wire) >= 44 {
 		in.Xid = binary.BigEndian.Uint32(wire[4:8])
-		in.Eligible = wire[0] == 2 && int(wire[2]) == len(clientHW) && bytes.Equal(wire[28:28+len(clientHW)], clientHW)
+		hl := int(wire[2])
+		if hl > 16 {
+			hl = 16 // the chaddr field has 16 bytes
+		}
+		in.Eligible = wire[0] == 2 && hl == len(clientHW) && bytes.Equal(wire[28:28+len(clientHW)], clientHW)
 	}
 	return in
 }
